@@ -63,6 +63,25 @@ type Case struct {
 	Data     Data         `json:"data"`
 	Entry    int          `json:"entry"`            // 0 RenderToDocument, 1 RenderTemplateToDocument
 	Hazard   string       `json:"hazard,omitempty"` // generator bookkeeping only (which known-finding shape was allowed)
+	// Load schedule: Pre is the history of loads on the engine BEFORE the chain is loaded base-to-child with its
+	// final sources (that final phase is always executed and is not part of Pre). Old holds earlier versions of
+	// templates of the chain (other ASTs under the same name) that Pre may load.
+	Pre []Load    `json:"pre,omitempty"`
+	Old []Version `json:"old,omitempty"`
+}
+
+// Load is one LoadTemplate call of the history: template index T of the chain; V = 0 its final source,
+// V = k > 0 the earlier version Old[k-1] (whose T is the same).
+type Load struct {
+	T int `json:"t"`
+	V int `json:"v,omitempty"`
+}
+
+// Version is an earlier source of template T: a base (T = 0) or a set of overrides (T > 0).
+type Version struct {
+	T    int        `json:"t"`
+	Base []Node     `json:"base,omitempty"`
+	Ov   []Override `json:"ov,omitempty"`
 }
 
 // ---------------------------------------------------------------------------------------------
@@ -109,17 +128,75 @@ func serialise(ns []Node) string {
 
 func tplName(i int) string { return "t" + strconv.Itoa(i) }
 
-// sources returns the template texts of the chain, base first.
+// childSource is the text of template t(i+1): extends t(i) and redefines the given blocks.
+func childSource(i int, ch []Override) string {
+	var sb strings.Builder
+	sb.WriteString(`{{extends "` + tplName(i) + `"}}`)
+	for _, o := range ch {
+		sb.WriteString("\n")
+		sb.WriteString(serialise([]Node{{K: KBlock, S: o.Name, A: o.Body}}))
+	}
+	return sb.String()
+}
+
+// sources returns the (final) template texts of the chain, base first.
 func (c *Case) sources() []string {
 	out := []string{serialise(c.Base)}
 	for i, ch := range c.Children {
-		var sb strings.Builder
-		sb.WriteString(`{{extends "` + tplName(i) + `"}}`)
-		for _, o := range ch {
-			sb.WriteString("\n")
-			sb.WriteString(serialise([]Node{{K: KBlock, S: o.Name, A: o.Body}}))
+		out = append(out, childSource(i, ch))
+	}
+	return out
+}
+
+// loadSource is the text that the history load ld passes to LoadTemplate ("" , false: malformed entry).
+func (c *Case) loadSource(ld Load, final []string) (string, bool) {
+	if ld.T < 0 || ld.T >= len(final) {
+		return "", false
+	}
+	if ld.V == 0 {
+		return final[ld.T], true
+	}
+	if ld.V < 0 || ld.V > len(c.Old) || c.Old[ld.V-1].T != ld.T {
+		return "", false
+	}
+	v := c.Old[ld.V-1]
+	if ld.T == 0 {
+		return serialise(v.Base), true
+	}
+	return childSource(ld.T-1, v.Ov), true
+}
+
+// schedClasses simulates the history: which kinds of earlier loads the final phase has to make irrelevant.
+//
+//	child-first    a template was loaded while the template it extends was not loaded
+//	base-replaced  a template was loaded (final source) while the template it extends was loaded in an earlier
+//	               version - the final phase replaces that base and re-loads the child with unchanged source
+//	replaced       some earlier version was loaded at all (the final phase replaces it)
+//	reload-same    a template was loaded with its final source while its base (if any) was loaded with its final
+//	               source too: the final phase re-loads identical text in an identical situation
+func (c *Case) schedClasses() map[string]bool {
+	out := map[string]bool{}
+	n := 1 + len(c.Children)
+	cur := make([]int, n) // -1 not loaded, else version
+	for i := range cur {
+		cur[i] = -1
+	}
+	for _, ld := range c.Pre {
+		if ld.T < 0 || ld.T >= n {
+			continue
 		}
-		out = append(out, sb.String())
+		if ld.V > 0 {
+			out["replaced"] = true
+		}
+		switch {
+		case ld.T > 0 && cur[ld.T-1] == -1:
+			out["child-first"] = true
+		case ld.T > 0 && cur[ld.T-1] > 0 && ld.V == 0:
+			out["base-replaced"] = true
+		case ld.V == 0 && (ld.T == 0 || cur[ld.T-1] == 0):
+			out["reload-same"] = true
+		}
+		cur[ld.T] = ld.V
 	}
 	return out
 }
